@@ -45,7 +45,7 @@ def segmentsNonEmpty : Bytes → Bool
 termination_by bs => bs.length
 decreasing_by simp only [List.length_drop, List.length_cons]; omega
 
-def isBytes (bs : Bytes) : Bool := bs.all (· < 256) && bs.length < 65536
+def isBytes (bs : Bytes) : Bool := bs.all (· < 256)
 
 /-- `none` = the attribute satisfies every invariant the wire decoder enforces; otherwise the
     (stable) name of the first violated one -/
